@@ -3,23 +3,28 @@ package main
 import (
 	"fmt"
 	"os"
+	"sort"
 )
+
+// commands is filled by the init() of each subcommand file:
+//
+//	func init() { commands["name"] = cmdName }
+var commands = map[string]func(args []string) int{}
 
 func main() {
 	if len(os.Args) < 2 {
-		fmt.Fprintln(os.Stderr, "usage: amverif <seq|...> [flags]")
+		var names []string
+		for k := range commands {
+			names = append(names, k)
+		}
+		sort.Strings(names)
+		fmt.Fprintln(os.Stderr, "usage: amverif <command> [flags]; commands:", names)
 		os.Exit(2)
 	}
-	cmd, args := os.Args[1], os.Args[2:]
-	switch cmd {
-	case "seq":
-		os.Exit(cmdSeq(args))
-	case "det":
-		os.Exit(cmdDet(args))
-	case "replay":
-		os.Exit(cmdReplay(args))
-	default:
-		fmt.Fprintln(os.Stderr, "unknown command", cmd)
+	cmd, ok := commands[os.Args[1]]
+	if !ok {
+		fmt.Fprintln(os.Stderr, "unknown command", os.Args[1])
 		os.Exit(2)
 	}
+	os.Exit(cmd(os.Args[2:]))
 }
